@@ -68,3 +68,12 @@ def split_range(n, parts):
 
 def rng_for(seed, *parts):
     return random.Random(f"{seed}:" + ":".join(map(str, parts)))
+
+
+def mark_current(case):
+    """Record the case about to run, so that a worker killed by a sanitizer leaves its input behind."""
+    import os
+    path = os.environ.get("VERIF_CUR_FILE")
+    if path:
+        with open(path, "w") as f:
+            json.dump(case, f, default=str)
